@@ -21,7 +21,7 @@ FUNCS = [SS + ':Surface._trace_real', SS + ':Surface._trace_paraxial', SS + ':Su
          'optiland/geometries/standard.py:StandardGeometry.distance', 'optiland/geometries/standard.py:StandardGeometry.surface_normal',
          'optiland/geometries/plane.py:Plane.distance', 'optiland/rays/real_rays.py:RealRays.refract', 'optiland/rays/real_rays.py:RealRays.reflect',
          'optiland/rays/real_rays.py:RealRays.propagate']
-ASSUMPTIONS = ['composition meta-lemma (standard analysis, not machine-checked): maps that are analytic near the axis, odd under the '
+ASSUMPTIONS = ['composition beyond two powered surfaces (machine-checked for one and two by the system_jets contracts) is the meta-lemma of standard analysis: maps that are analytic near the axis, odd under the '
                'meridional mirror (C07) and whose derivatives at the axis are the paraxial matrices compose to a map with the same '
                'properties, so (height, slope)/eps = paraxial + O(eps^2) at every surface of a lens',
                'jets take branch decisions on leading coefficients: the statement is about all sufficiently small eps > 0']
